@@ -340,6 +340,10 @@ func (s *session) reuseFileNum(num int64) {
 
 // Set compaction ptr at given level; need external synchronization.
 func (s *session) setCompPtr(level int, ik internalKey) {
+	// Commits (under the commit lock) write the pointers while the table
+	// compaction goroutine reads them when picking a compaction.
+	s.cpMu.Lock()
+	defer s.cpMu.Unlock()
 	if level >= len(s.stCompPtrs) {
 		newCompPtrs := make([]internalKey, level+1)
 		copy(newCompPtrs, s.stCompPtrs)
@@ -350,6 +354,8 @@ func (s *session) setCompPtr(level int, ik internalKey) {
 
 // Get compaction ptr at given level; need external synchronization.
 func (s *session) getCompPtr(level int) internalKey {
+	s.cpMu.Lock()
+	defer s.cpMu.Unlock()
 	if level >= len(s.stCompPtrs) {
 		return nil
 	}
@@ -372,11 +378,13 @@ func (s *session) fillRecord(r *sessionRecord, snapshot bool) {
 			r.setSeqNum(s.stSeqNum)
 		}
 
+		s.cpMu.Lock()
 		for level, ik := range s.stCompPtrs {
 			if ik != nil {
 				r.addCompPtr(level, ik)
 			}
 		}
+		s.cpMu.Unlock()
 
 		r.setComparer(s.icmp.uName())
 	}
